@@ -170,8 +170,9 @@ Section Check.
   Definition validate (t : list row) (prefixes : list bytes) (s : bytes) : bool :=
     match find_dec t s with
     | None => false
-    | Some r => existsb (bytes_eqb (tpre r)) prefixes &&
-                match base58_decode t s with Ok _ => true | Reject => false end
+    | Some r => if existsb (bytes_eqb (tpre r)) prefixes
+                then match base58_decode t s with Ok _ => true | Reject => false end
+                else false
     end.
 
   Definition pkh_prefixes := [tx "tz1"; tx "tz2"; tx "tz3"; tx "tz4"].
@@ -196,7 +197,7 @@ Section Check.
     end.
 
   Definition is_address t (s : bytes) : bool :=
-    let a := before_pct s in is_kt t a || is_pkh t a || is_sr t a.
+    let a := before_pct s in if is_kt t a then true else if is_pkh t a then true else is_sr t a.
   Definition is_txr_address t (s : bytes) : bool := is_l2_pkh t (before_pct s).
 
   (* ---------------------------------------------------------------------------------------- *)
@@ -291,11 +292,15 @@ Definition table43 : list row := [
 (* ------------------------------------------------------------------------------------------ *)
 (* helpers for the correspondence harness                                                      *)
 
-(* an oracle given as data: association list  input -> sha256 input  *)
-Fixpoint assoc_sha (tbl : list (bytes * bytes)) (x : bytes) : bytes :=
-  match tbl with
-  | [] => []
-  | (k, v) :: r => if bytes_eqb k x then v else assoc_sha r x
-  end.
+(* SHA-256 as data for one Base58Check computation (the oracle is an argument of the model, the
+   harness supplies what hashlib returned): the implementation hashed [body] to a digest whose
+   first bytes are [tag] and that one to a digest starting with [digest]; [body] is identified by
+   its length and a polynomial fingerprint (keeps the generated literals small). *)
+Definition fp (x : bytes) : N :=
+  fold_left (fun a b => ((a * 257 + Byte.to_N b) mod 4294967291)%N) x (N.of_nat (length x)).
+
+Definition sha_data (d : N * bytes * bytes) : bytes -> bytes :=
+  let '(f, tag, digest) := d in
+  fun x => if (fp x =? f)%N then tag else if bytes_eqb x tag then digest else [].
 
 Definition rows_eqb (a b : list row) : bool := list_eqb row_eqb a b.
